@@ -267,16 +267,23 @@ Publish(newcache) ==
                     ELSE store' = Snap(newcache) /\ pending' = pending
 Arm(cs, i) == [cs EXCEPT ![i].timer = "armed"]
 
-FlightRet(n) ==         \* Issue returns: every handshake that waited for it gets the result
+IssueDone(n) ==         \* Issue has the answer: it caches the certificate, arms the timer, publishes a snapshot;
+                        \* the flight is still open (handshakes can still join it)
     /\ flight[n].st = "resp"
     /\ LET i == flight[n].out IN
-       /\ hs' = [c \in Clients |-> IF hs[c].pc \in {"wait", "lead"} /\ hs[c].name = n
-                                   THEN [hs[c] EXCEPT !.pc = IF i > 0 THEN "got" ELSE "failed", !.res = i] ELSE hs[c]]
-       /\ IF i > 0 THEN /\ cache' = [cache EXCEPT ![n] = i] /\ certs' = Arm(certs, i)
-                        /\ Publish([cache EXCEPT ![n] = i])
-                   ELSE UNCHANGED <<cache, certs, pending, store>>
+       IF i > 0 THEN /\ cache' = [cache EXCEPT ![n] = i] /\ certs' = Arm(certs, i)
+                     /\ Publish([cache EXCEPT ![n] = i])
+                ELSE UNCHANGED <<cache, certs, pending, store>>
+    /\ flight' = [flight EXCEPT ![n].st = "ret"]
+    /\ UNCHANGED <<tfl, hs, pfault, asked, presentedExpired, dupIssue, benv>> /\ BOnly
+
+FlightRet(n) ==         \* Issue returns: every handshake that waited for it gets the result
+    /\ flight[n].st = "ret"
+    /\ LET i == flight[n].out IN
+       hs' = [c \in Clients |-> IF hs[c].pc \in {"wait", "lead"} /\ hs[c].name = n
+                                THEN [hs[c] EXCEPT !.pc = IF i > 0 THEN "got" ELSE "failed", !.res = i] ELSE hs[c]]
     /\ flight' = [flight EXCEPT ![n] = NoFlight]
-    /\ UNCHANGED <<tfl, pfault, asked, presentedExpired, dupIssue, benv>> /\ BOnly
+    /\ UNCHANGED <<certs, store, cache, pending, tfl, pfault, asked, presentedExpired, dupIssue, benv>> /\ BOnly
 
 Deliver(s) ==           \* one of the waiting snapshots reaches Store.SetCertificates
     /\ s \in pending
@@ -332,6 +339,7 @@ BNext ==
     \/ \E c \in Clients : HsLead(c)
     \/ \E n \in PNames : IssueReq(n)
     \/ \E n \in PNames : IssueResp(n)
+    \/ \E n \in PNames : IssueDone(n)
     \/ \E n \in PNames : FlightRet(n)
     \/ \E s \in pending : Deliver(s)
     \/ \E c \in Clients : HsEnd(c)
